@@ -102,6 +102,33 @@ func stimulusText(v *psVector) string {
 	return sb.String()
 }
 
+// progFeatures summarises a program by the operators it uses, so that
+// disagreements group into classes instead of one signature per program text.
+func progFeatures(toks []model.Value) string {
+	set := map[string]bool{}
+	for i, t := range toks {
+		if t.T == "xname" {
+			set[t.S] = true
+		}
+		if t.T == "rbrace" && i+1 < len(toks) && toks[i+1].T == "rbrace" {
+			set["<proc-last-in-body>"] = true
+		}
+		if t.T == "eoc" {
+			set["<call-split>"] = true
+		}
+	}
+	var names []string
+	for n := range set {
+		names = append(names, n)
+	}
+	sort.Strings(names)
+	s := strings.Join(names, " ")
+	if len(s) > 160 {
+		s = s[:160]
+	}
+	return s
+}
+
 func opSig(v *psVector, kind string) string {
 	var cls []string
 	init := v.Init
@@ -118,11 +145,7 @@ func opSig(v *psVector, kind string) string {
 	}
 	name := v.Op
 	if name == "" {
-		calls, _ := psbind.Calls(v.Prog)
-		name = "prog:" + strings.Join(calls, "||")
-		if len(name) > 120 {
-			name = name[:120]
-		}
+		name = "prog{" + progFeatures(v.Prog) + "}"
 	}
 	return fmt.Sprintf("%s [%s] %s", name, strings.Join(cls, ","), kind)
 }
@@ -165,7 +188,16 @@ func checkVector(base *psBase, v *psVector, line int) *disagreement {
 			return mk("harness", "harness error: "+err.Error(), "", "")
 		}
 	}
-	out := b.Run(calls, v.MaxOps)
+	// the specification only emits behaviours that terminate within its own step
+	// bound; a safety budget keeps a diverging library from hanging the replay
+	maxops := v.MaxOps
+	if maxops == 0 {
+		maxops = safetyBudget
+	}
+	out := b.Run(calls, maxops)
+	if v.MaxOps == 0 && psbind.ErrName(out.Err) == "budget" {
+		return mk("diverges", fmt.Sprintf("the library is still running after %d operations where the reference terminates", safetyBudget), v.Status+" "+strings.Join(v.Errs, "|"), "no termination within the safety budget")
+	}
 	if out.Panic != nil {
 		return mk("panic", fmt.Sprintf("the library panicked: %v", out.Panic), "no panic", fmt.Sprint(out.Panic))
 	}
@@ -196,6 +228,8 @@ func checkVector(base *psBase, v *psVector, line int) *disagreement {
 	}
 	return nil
 }
+
+const safetyBudget = 20000
 
 func replayPS(args []string) error {
 	fs := flag.NewFlagSet("replay-ps", flag.ContinueOnError)
